@@ -180,6 +180,12 @@ def rand_graph(rng: random.Random, max_n=6, max_e=6, max_props=4, axes=True) -> 
     ids = rand_ids(rng, n, dt)
     e = 0 if n == 0 else rng.choice([0, 1, 2, rng.randint(0, max_e)])
     edges = [[rng.choice(ids), rng.choice(ids)] for _ in range(e)]
+    if edges and rng.random() < 0.12:
+        # an endpoint that is not a node: structurally valid (graph validation is optional), so it must be stored and read back as it is
+        info = np.iinfo(dt)
+        absent = [v for v in (info.max - 2, 77, 3, info.min + 2) if info.min <= v <= info.max and v not in ids]
+        if absent:
+            edges[rng.randrange(len(edges))][rng.randrange(2)] = absent[0]
     nprops, eprops = {}, {}
     for _ in range(rng.randint(0, max_props)):
         nprops[rand_name(rng, nprops)] = rand_prop(rng, n)
